@@ -959,3 +959,165 @@ def execute(case, props):
         "probes": probes,
         "errors": R.errors[:2],
     }
+
+
+# ------------------------------------------------------------------------------------------
+# profile: huge (immutable shares around the 4 GiB mark, where the 32-bit "share data length" field of the container header
+# saturates).  Sparse files: only a few windows are ever written or read, so a 4 GiB share costs a few KiB of disk and memory.
+# Used by C22 (reads), C25 (leases) and C29 (re-open after restart; lease-only operations leave the data alone).
+# ------------------------------------------------------------------------------------------
+def gen_huge(seed, tier, focus):
+    ch = Chooser(seed)
+    W = "workload"
+    size = (1 << 32) + ch.pick("config", "huge-delta", [-2, -1, 0, 1, 71, -1 + 72, -1 + 72 * 2, -1 + 72 * 5, 4096, 100000, -1 + 72 * 1000])
+    ops = []
+    for i in range(ch.randint(W, "nops", 2, 7)):
+        k = ch.weighted(W, ("k", i), [("add_lease", 4), ("renew", 2), ("realloc", 2), ("restart", 3), ("advance", 1.5), ("read", 1)])
+        ops.append([k, ch.randrange(W, ("sec", i), 4), ch.pick(W, ("dt", i), [1, 3600, 86400 * 5])])
+    return {"engine": "storesim", "profile": "huge", "focus": focus, "seed": seed,
+            "cfg": {"size": size, "imm_schema": ch.pick("config", "iv", [1, 2, 2]), "pat": ch.randint("config", "pat", 1, 1 << 30),
+                    "write_tail": ch.chance("config", "write-tail", 0.8), "chunk": ch.pick("config", "chunk", [300, 1000, 5000])},
+            "ops": ops}
+
+
+def exec_huge(case):
+    import tempfile
+    from sim.runner import child_tmp
+    cfg = case["cfg"]
+    focus = case["focus"]
+    base = tempfile.mkdtemp(dir=child_tmp())
+    R.reset_sim()
+    set_container_schema(cfg["imm_schema"], 2)
+    viol, probes = [], {}
+
+    def probe(nm, c=1):
+        probes[nm] = probes.get(nm, 0) + c
+
+    def bad(props, clause, detail):
+        for p_ in props:
+            viol.append({"clause": "%s.%s" % (p_, clause), "sig": "%s.%s.huge-share" % (p_, clause), "detail": detail})
+
+    size, chunk = cfg["size"], cfg["chunk"]
+    LEASE_S = 31 * 24 * 3600
+    si = si_of(0)
+
+    def new_server():
+        ss_ = StorageServer(base, b"\x33" * 20, clock=R)
+        ss_.bucket_counter.disownServiceParent()
+        ss_.lease_checker.disownServiceParent()
+        ss_.get_available_space = lambda: 1 << 50        # (the real disk is smaller than the sparse share's nominal size)
+        return ss_
+    try:
+        ss = new_server()
+        already, writers = ss.allocate_buckets(si, secret_of("renew", 0), secret_of("cancel", 0), {0}, size)
+        if 0 not in writers:
+            return {"violations": [], "digest": R.digest(), "fingerprint": "huge-setup", "nontrivial": False, "events": R.events,
+                    "sim_s": R.true_seconds() - EPOCH, "faults": {}, "probes": {"huge-setup-failed": 1}}
+        written = []
+        spots = [0, (1 << 32) - 1 - chunk // 2, (1 << 32) - 1 + 72 - chunk // 3]
+        if cfg["write_tail"]:
+            spots.append(size - chunk)
+        for off in spots:
+            off = max(0, min(off, size - 1))
+            ln = min(chunk, size - off)
+            data = pat_bytes(cfg["pat"], ln, off % 1000003)
+            writers[0].write(off, data)
+            written.append((off, data))
+        writers[0].close()
+        leases = {secret_of("renew", 0): R.seconds() + LEASE_S}
+        share_path = os.path.join(ss.sharedir, storage_index_to_dir(si), "0")
+        probe("huge-share-stored")
+
+        def expect(off, ln):
+            ln = max(0, min(ln, size - off))
+            buf = bytearray(ln)
+            for (o_, d_) in written:
+                a, b = max(off, o_), min(off + ln, o_ + len(d_))
+                if a < b:
+                    buf[a - off:b - off] = d_[a - o_:b - o_]
+            return bytes(buf)
+        windows = [(0, 64), (chunk - 10, 40), ((1 << 32) - 1 - 130, 300), ((1 << 32) - 1 + 72 - 40, 200), (size - 200, 200), (size - 50, 100), (size, 10), (size + 1000, 10)]
+        windows = [(max(0, o_), l_) for (o_, l_) in windows]
+
+        def raw_windows():
+            out = []
+            with open(share_path, "rb") as f:
+                for (o_, l_) in windows:
+                    l2 = max(0, min(l_, size - o_))
+                    f.seek(0xc + o_)
+                    out.append(f.read(l2))
+            return out
+
+        def check_all(after, props_data, props_lease):
+            try:
+                rd = ss.get_buckets(si)[0]
+            except Exception as e:
+                bad(props_data, "share-unreadable", "%s: get_buckets failed: %r" % (after, e))
+                return
+            for (o_, l_) in windows:
+                try:
+                    got = rd.read(o_, l_)
+                except Exception as e:
+                    bad(props_data, "read", "%s: read(%d, %d) of a %d-byte share raised %r" % (after, o_, l_, size, e))
+                    break
+                if got != expect(o_, l_):
+                    bad(props_data, "read", "%s: read(%d, %d) of a %d-byte share returned %d bytes, expected %d%s" % (
+                        after, o_, l_, size, len(got), len(expect(o_, l_)), "" if len(got) != len(expect(o_, l_)) else " (contents differ)"))
+                    break
+            probe("huge-windows-read")
+            try:
+                got_l = sorted((l.renew_secret if cfg["imm_schema"] == 1 else None, int(l.get_expiration_time())) for l in ss.get_leases(si))
+            except Exception as e:
+                bad(props_lease, "leases-unreadable", "%s: get_leases raised %r" % (after, e))
+                return
+            want_l = sorted((s_ if cfg["imm_schema"] == 1 else None, int(e_)) for s_, e_ in leases.items())
+            if got_l != want_l:
+                bad(props_lease, "lease-set", "%s: a %d-byte share has %d leases with expirations %r, the operations so far leave %d with %r" % (
+                    after, size, len(got_l), [e_ for _s, e_ in got_l][:6], len(want_l), [e_ for _s, e_ in want_l][:6]))
+            probe("huge-leases-compared")
+        check_all("after the upload", ("C22",), ("C25",))
+        for (k, sec, dt) in case["ops"]:
+            rs, cs = secret_of("renew", sec), secret_of("cancel", sec)
+            before_raw = raw_windows()
+            lease_only = k in ("add_lease", "renew", "realloc")
+            try:
+                if k == "add_lease":
+                    ss.add_lease(si, rs, cs)
+                    leases[rs] = max(leases.get(rs, 0), R.seconds() + LEASE_S)
+                elif k == "renew":
+                    if rs in leases:
+                        ss.renew_lease(si, rs)
+                        leases[rs] = max(leases[rs], R.seconds() + LEASE_S)
+                    else:
+                        try:
+                            ss.renew_lease(si, rs)
+                            bad(("C25",), "renew-unknown-accepted", "renew_lease with a secret no lease was granted under did not fail")
+                        except IndexError:
+                            pass
+                elif k == "realloc":
+                    already2, writers2 = ss.allocate_buckets(si, rs, cs, {0}, size)
+                    if 0 not in already2 or writers2:
+                        bad(("C22",), "complete-share-reallocated", "allocate_buckets for the stored %d-byte share: already=%r, new writers for %r" % (size, sorted(already2), sorted(writers2)))
+                        for w_ in writers2.values():
+                            w_.abort()
+                    leases[rs] = max(leases.get(rs, 0), R.seconds() + LEASE_S)
+                elif k == "restart":
+                    ss = new_server()
+                elif k == "advance":
+                    R.advance(dt)
+            except Exception as e:
+                if k == "renew" and rs in leases:
+                    bad(("C25", "C29"), "renew-failed", "renew_lease with a secret a lease was granted under raised %r (share of %d bytes)" % (e, size))
+                else:
+                    bad(("C25",) if lease_only else ("C22",), "unexpected-exception", "%s on a %d-byte share raised %r" % (k, size, e))
+            probe("huge-op-" + k)
+            if lease_only and raw_windows() != before_raw:
+                bad(("C22", "C29", "C25"), "lease-op-changed-data", "%s changed bytes inside the data region of a stored %d-byte share" % (k, size))
+            check_all("after %s" % k, ("C22", "C29") if k == "restart" or lease_only else ("C22",), ("C25", "C29") if k == "restart" else ("C25",))
+            if viol:
+                break
+    finally:
+        set_container_schema(2, 2)
+    fp = hashlib.sha256(repr((sorted(probes.items()), size)).encode()).hexdigest()[:16]
+    return {"violations": [v for v in viol if v["clause"].split(".")[0] == focus][:4], "digest": R.digest(), "fingerprint": fp, "nontrivial": True,
+            "events": R.events, "sim_s": R.true_seconds() - EPOCH, "faults": {}, "probes": probes}
